@@ -440,7 +440,9 @@ func checkRequest(ctx context.Context, s *sut.SUT, g genReq) (rule, detail strin
 	if code == codes.DeadlineExceeded && !g.IsPull {
 		return "no-answer", fmt.Sprintf("%s %s: no status within 20 s", g.Method, reqJSON(g.Msg)), map[string]any{"method": g.Method}, code
 	}
-	if code != codes.OK {
+	// a streaming pull is a long-lived exchange that always ends with a status:
+	// what it delivered before the end is not "a rejected request"
+	if code != codes.OK && g.Method != "StreamingPull" {
 		after := dumpForC16(s, g.IsPull)
 		if after != before {
 			return "error-changed-state", fmt.Sprintf("%s %s answered %s (%v) but changed the stored state:\n%s", g.Method, reqJSON(g.Msg), code, err, diffLines(before, after)), map[string]any{"method": g.Method}, code
